@@ -3,7 +3,7 @@ CONSTANTS
   Repaired = TRUE
   MaxLen = 3
   MaxComp = 2
-  Kinds = {"Filter", "Aggregate", "Sort", "Take", "Distinct", "DistinctOn", "Join", "Union"}
+  Kinds = {"Filter", "Aggregate", "Sort", "Take", "Distinct", "DistinctOn", "Join", "Union", "Except", "Intersect"}
   Emit = FALSE
   Report = FALSE
 INVARIANTS EmittedOk NoLoss Progress Closed
